@@ -93,10 +93,31 @@ type dialRecorder struct {
 	first, redials int32
 	rejectRedial   int32 // when set, every redial attempt is refused by the hook (e.g. a refused re-authentication)
 	refuseNext     int32 // this many of the next redial attempts are refused, then the hook accepts again
+	wrapConn       bool  // the hook wraps the connection of every (re)dialled socket, as a TLS / metering / websocket plugin does
+	wrapped        int32
 }
+
+// meteredConn is a pass-through net.Conn wrapper installed by the dial hook.
+type meteredConn struct {
+	net.Conn
+	n *int64
+}
+
+func (m *meteredConn) Write(b []byte) (int, error) {
+	atomic.AddInt64(m.n, int64(len(b)))
+	return m.Conn.Write(b)
+}
+
+var meteredBytes int64
 
 func (d *dialRecorder) Name() string { return "c13dial" }
 func (d *dialRecorder) PostDial(s erpc.PreSession, isRedial bool) *erpc.Status {
+	if d.wrapConn {
+		s.ModifySocket(func(conn net.Conn) (net.Conn, erpc.ProtoFunc) {
+			return &meteredConn{Conn: conn, n: &meteredBytes}, nil
+		})
+		atomic.AddInt32(&d.wrapped, 1)
+	}
 	if isRedial {
 		if atomic.LoadInt32(&d.rejectRedial) != 0 {
 			return erpc.NewStatus(erpc.CodeUnauthorized, "re-authentication refused", "c13")
@@ -142,13 +163,14 @@ type c13Case struct {
 	Proto   string // "" = process default, else the protocol given to Dial: raw | json | pb
 	Budget  int32  // redial attempts: 1, 3 or -1 (unlimited)
 	Secure  bool   // both peers run the secure plugin and every message is marked secure
+	Wrap    bool   // the client's dial hook wraps the connection of every (re)dialled socket (ModifySocket)
 	SetID   bool
 	Actions []string // kill-idle | kill-during-call | calls | outage-short | outage-exhaust
 	Callers int
 }
 
 func genC13(t *rapid.T) c13Case {
-	c := c13Case{Proto: rapid.SampledFrom([]string{"", "", "raw", "json", "pb"}).Draw(t, "proto"), Budget: rapid.SampledFrom([]int32{1, 3, -1}).Draw(t, "budget"), SetID: rapid.Bool().Draw(t, "setid"), Callers: rapid.IntRange(1, 4).Draw(t, "callers"), Secure: rapid.IntRange(0, 2).Draw(t, "secure") == 0}
+	c := c13Case{Wrap: rapid.IntRange(0, 3).Draw(t, "wrap") == 0, Proto: rapid.SampledFrom([]string{"", "", "raw", "json", "pb"}).Draw(t, "proto"), Budget: rapid.SampledFrom([]int32{1, 3, -1}).Draw(t, "budget"), SetID: rapid.Bool().Draw(t, "setid"), Callers: rapid.IntRange(1, 4).Draw(t, "callers"), Secure: rapid.IntRange(0, 2).Draw(t, "secure") == 0}
 	n := rapid.IntRange(1, 5).Draw(t, "nactions")
 	for i := 0; i < n; i++ {
 		a := rapid.SampledFrom([]string{"kill-idle", "kill-idle", "kill-during-call", "calls", "outage-short", "outage-exhaust", "hook-rejects-redials", "traffic-during-outage", "traffic-during-outage", "reverse-call-in-flight", "reverse-call-in-flight", "refused-then-accepted", "refused-then-accepted"}).Draw(t, "action")
@@ -194,7 +216,7 @@ func runC13(c c13Case) []string {
 		return []string{"SKIP: no loopback listener: " + err.Error()}
 	}
 	defer ts.down()
-	rec := &dialRecorder{}
+	rec := &dialRecorder{wrapConn: c.Wrap}
 	once := &writeOnce{n: map[string]int{}}
 	cli := w.Peer(erpc.PeerConfig{RedialTimes: c.Budget, RedialInterval: c13Interval, DialTimeout: 2 * time.Second}, append(cliPlugins, rec, once)...)
 	registerLib(cli) // the client serves calls issued by the server over the client's session
@@ -644,7 +666,7 @@ func okCallLocked(sess erpc.Session, route string, fails *[]string, n *int) {
 	}
 }
 
-const ruleC13 = "a client session created by Dial over loopback TCP (process-default protocol, or raw / json / protobuf protocol given to Dial) with redial budget 1 / 3 / unlimited (interval 3 ms), optionally with a user-assigned id and optionally with the secure plugin on both peers (every message marked secure), against a harness-owned listener that can kill all connections and refuse new ones; 1-5 generated fault actions: connection killed while idle, killed while a call awaits its (gated) reply, calls and pushes issued while the server is away (unlimited budget), short outage, outage that exhausts the budget (or a long outage with unlimited budget), a dial hook refusing every redial attempt while the server is reachable, a dial hook refusing budget-1 attempts of a round and then accepting (repeatable: the budget is per loss), bursts of concurrent calls, a call issued by the server whose client-side handler is still running at the loss followed by a server call with the same sequence number over the re-established connection; oracle: the pre-write hooks of the dialling peer fire once per message even when it is re-sent after a redial; calls in flight at the loss complete with a connection-class status or their genuine reply (never hang); after the session re-established (redial hook ran again, Health) calls succeed on the same Session value, the user-assigned id is kept and indexed; after exhaustion the close notification fires, the index forgets the session, the pending call and a later call fail with a connection error; unlimited budget survives a long outage; non-trivial = a loss during a call, >=2 losses or exhaustion; distinct by case"
+const ruleC13 = "a client session created by Dial over loopback TCP (process-default protocol, or raw / json / protobuf protocol given to Dial) with redial budget 1 / 3 / unlimited (interval 3 ms), optionally with a user-assigned id, optionally with a dial hook that wraps the connection through ModifySocket on every (re)dial, and optionally with the secure plugin on both peers (every message marked secure), against a harness-owned listener that can kill all connections and refuse new ones; 1-5 generated fault actions: connection killed while idle, killed while a call awaits its (gated) reply, calls and pushes issued while the server is away (unlimited budget), short outage, outage that exhausts the budget (or a long outage with unlimited budget), a dial hook refusing every redial attempt while the server is reachable, a dial hook refusing budget-1 attempts of a round and then accepting (repeatable: the budget is per loss), bursts of concurrent calls, a call issued by the server whose client-side handler is still running at the loss followed by a server call with the same sequence number over the re-established connection; oracle: the pre-write hooks of the dialling peer fire once per message even when it is re-sent after a redial; calls in flight at the loss complete with a connection-class status or their genuine reply (never hang); after the session re-established (redial hook ran again, Health) calls succeed on the same Session value, the user-assigned id is kept and indexed; after exhaustion the close notification fires, the index forgets the session, the pending call and a later call fail with a connection error; unlimited budget survives a long outage; non-trivial = a loss during a call, >=2 losses or exhaustion; distinct by case"
 
 func TestC13Redial(t *testing.T) {
 	rec := vt.NewRec(t, "C13", "redial", ruleC13)
